@@ -43,7 +43,8 @@ def gen_case(rng, tier, idx):
     return {"kind": "bare", "aw": aw, "dw": rng.choice([1, 4, 8, 8, 16, 32, 64, 65]),
             "al": rng.choice([0, 0, 0, 1, 2, 3]) if aw > 3 else 0,
             "nsubs": rng.choice([0, 1, 2, 3, 4, 5, 6, 17, 20, 33, 40]) if aw >= 8 else rng.choice([0, 1, 2, 3, 4, 5, 6]),
-            "query_between_adds": rng.random() < 0.4, "cycles": 250 if tier == "quick" else 700}
+            "query_between_adds": rng.random() < 0.4, "elaborate_between_adds": rng.random() < 0.3,
+            "cycles": 250 if tier == "quick" else 700}
 
 
 def run_case(case):
@@ -56,9 +57,11 @@ def run_case(case):
 def run_bare(case, rng):
     aw, dw = case["aw"], case["dw"]
     dec = csr.Decoder(addr_width=aw, data_width=dw, alignment=case["al"])
-    subs, topo = [], []
+    subs, topo, rejected = [], [], []
     for i in range(case["nsubs"]):
         k = rng.randint(1, max(1, (aw - 5) if case["nsubs"] > 8 else (aw - 1)))
+        if rng.random() < 0.08:
+            k = aw + rng.randint(0, 1)        # does not fit (or fills the decoder): a rejected add is part of the history
         sub = csr.Interface(addr_width=k, data_width=dw, path=(f"sub{i}",))
         sub.memory_map = MemoryMap(addr_width=k, data_width=dw)
         if rng.random() < 0.3:
@@ -73,8 +76,12 @@ def run_bare(case, rng):
         try:
             dec.add(sub, name=name, **kw)
         except ValueError:
+            rejected.append(sub)      # not part of the decoder: whatever it presents must not be seen upstream
             continue
         subs.append(sub)
+        if case.get("elaborate_between_adds") and rng.random() < 0.3:
+            from amaranth.hdl import Fragment
+            Fragment.get(dec, None)   # bring-up elaboration of a partly populated decoder; more windows follow
         if case.get("query_between_adds") and rng.random() < 0.5:
             mm_ = dec.bus.memory_map
             list(mm_.window_patterns()), list(mm_.windows()), list(mm_.all_resources()), mm_.decode_address(0)
@@ -102,6 +109,8 @@ def run_bare(case, rng):
             ctx.set(bus.w_data, w_data)
             for j, (sub, _s, _t, _e) in enumerate(wins):
                 ctx.set(sub.r_data, pending[j])
+            for sub in rejected:
+                ctx.set(sub.r_data, bits(rng, dw))
             mon.log({"c": c, "addr": addr, "r_stb": r_stb, "w_stb": w_stb, "w_data": w_data, "sub_r_data": list(pending)})
             sel = None
             zone = "outside"
